@@ -76,7 +76,7 @@ CHECKS = {
   "DESIGN.md section 4 C06"),
  "C07": ("model_checking",
   "corpus encodings parsed by an independent decoder written from the documentation; grammar-generated streams decoded by the implementation",
-  "Direction 1: every encoding of the BFS corpus is parsed by refwire (written only from the comments of flag.go/encoding.go) and must yield the same content; the plain decoder must accept exact-variant encodings. Direction 2: every well-formed stream of the documented grammar within stated bounds (~1e5 streams quick, incl. indexes at both ends of the int32 range for the sparse store, which needs neither an array nor a page table to hold them) is decoded by the implementation into five store kinds and compared with the documented meaning.",
+  "Direction 1: every encoding of the BFS corpus is parsed by refwire (written only from the comments of flag.go/encoding.go) and must yield the same content; the plain decoder must accept exact-variant encodings. Direction 2: every well-formed stream of the documented grammar within stated bounds (~1e5 streams quick, incl. indexes at both ends of the int32 range for the sparse and the bounded stores; the dense and paginated stores would have to allocate the span) is decoded by the implementation into five store kinds and compared with the documented meaning.",
   "Trusted: refwire as a faithful reading of the documentation. Not covered: streams beyond the grammar bounds (more than 2 store blocks, more than 3 bins per block).",
   "DESIGN.md section 4 C07"),
  "C08": ("fault_enumeration",
